@@ -33,7 +33,7 @@ def main():
         "id": sid, "property": pid, "breaks": notes.get("breaks"), "needs_to_manifest": notes.get("needs_to_manifest"),
         "origin": "fresh sub-agent given only the property text (plus one-line descriptions of the earlier ideas to avoid) and a scratch "
                   "git worktree of /repo (wave 8, 2026-09-29)",
-        "caught_before_strengthening": bool(caught), "detected_by": ",".join(caught) or None,
+        "caught_before_strengthening": bool(caught), "detected_by": ",".join(caught),
         "detected_as": [f"{f}:{k}" for f, k in kinds][:6],
         "strengthening_done": "none needed" if caught else "PENDING", "also_checks": [c for c in extra],
         "what_i_ran": [
